@@ -1,7 +1,7 @@
 (* Flat integer interface of the C11 whole-model validator (build/preserve) for tools/checks/c11.py.
    The single-subgraph command stays in model/Dispatch.v (CMD check_preserved = 8 of build/velaverif). *)
 From Coq Require Import ZArith List Bool.
-From VV Require Import model.Preserve.
+From VV Require Import model.Preserve model.OutputList.
 Import ListNotations.
 Open Scope Z_scope.
 
@@ -103,5 +103,10 @@ Definition run_check_preserved_model (a : list Z) : list Z :=
   | [] => [-1]
   end.
 
+(* CMD output_list = 2 : the subgraph output indices -> [n] ++ dedup ++ positions (-1 = not found) *)
+Definition run_output_list (a : list Z) : list Z :=
+  let d := dedup a in
+  Z.of_nat (length d) :: d ++ map (fun p => match p with Some i => Z.of_nat i | None => -1 end) (positions a).
+
 Definition run (cmd : Z) (a : list Z) : list Z :=
-  if cmd =? 1 then run_check_preserved_model a else [-1].
+  if cmd =? 1 then run_check_preserved_model a else if cmd =? 2 then run_output_list a else [-1].
